@@ -1,12 +1,120 @@
-"""C46 -- Quoted endpoint description arguments round-trip: bounded stand-in (contracts/parts/C46_bounded.py); deductive contracts may be added later."""
-from contracts._parts import bounded, EXPLORATION_NOTE
+"""C46 -- Quoted endpoint description arguments round-trip.
 
-CONTRACTS = []
+Deductive, character by character (every code point, symbolically): endpoints.quoteStringArgument puts a backslash in
+front of each of the three characters the description tokenizer gives a meaning to (backslash, ':' and '=') and leaves
+every other character alone.  The tokenizer reads `backslash x` as the character x for every x, so this table is what
+makes the round trip hold; the tokenizer itself (a generator) and the parsers on top of it are exercised in the bounded
+tier.
+Bounded (contracts/parts/C46_bounded.py): _parse, serverFromString / clientFromString with the quoted text in every slot.
+"""
+from pyvc.api import *
+from pyvc import core
+from contracts._parts import bounded
+from twisted.internet import endpoints
+
+SPECIAL = ("\\", ":", "=")
+
+
+class QuoteChar(Contract):
+    prop = "C46"
+    module = "twisted.internet.endpoints"
+    function = "quoteStringArgument"
+    differential = False
+    inputs = dict(ch=Str(maxlen=1, minlen=1, alphabet="a:=\\", small_len=1))
+    trusted = ["str.replace with a one-character pattern acts on every character independently (the per-character table is the function)"]
+
+    def setup(self, i):
+        return dict(fn=endpoints.quoteStringArgument, args=[i.ch])
+
+    def bounded_inputs(self, tier):
+        return iter(())
+
+    raises = ()
+
+    def _table(S):
+        truth = S.ghost["$interp"].truth
+        for c in SPECIAL:
+            if truth(veq(S.i.ch, c)):
+                return veq(S.result, "\\" + c)
+        return veq(S.result, S.i.ch)
+
+    ensures = dict(the_three_operator_characters_are_escaped_nothing_else_changes=_table)
+    canaries = [("    for c in backslash, colon, equals:", "    for c in backslash, colon:", "the_three_operator_characters_are_escaped_nothing_else_changes"),
+                ("    for c in backslash, colon, equals:", "    for c in colon, equals, backslash:", "the_three_operator_characters_are_escaped_nothing_else_changes")]
+
+
+def iterbytes_model(I, d):
+    """iterbytes(x): the one-character slices of x in order; the length of the symbolic description is known to the contract"""
+    if not is_sym(d):
+        return [d[k:k + 1] for k in range(len(d))]
+    n = ctx().ghost["n"]
+    return [d[k:k + 1] for k in range(n)]
+
+
+class TokenizeQuotedChar(Contract):
+    """the tokenizer reads the quoted form of any character back as that character, in positional and in keyword position
+    (seeded change C46-2 broke the keyword position)"""
+    prop = "C46"
+    module = "twisted.internet.endpoints"
+    function = "_tokenize"
+    also = ["quoteStringArgument"]
+    differential = False
+    # iter / next over the Python list of one-character slices run natively (the slices themselves are symbolic)
+    calls = {"iterbytes": iterbytes_model, "iter": lambda I, x: iter(x), "next": lambda I, it, *d: next(it, *d)}
+    inputs = dict(ch=Str(maxlen=1, minlen=1, alphabet="a:=\\", small_len=1), prefix=OneOf("", "a:", "a:k=", "a:k=v:"))
+    trusted = QuoteChar.trusted + ["iterbytes(x) yields the one-character slices of x in order",
+                                   "a generator is run to completion and its yields collected (the tokenizer has no side effects between yields)"]
+
+    def setup(self, i):
+        g = dict(n=0)
+
+        def drive(call):
+            q = call(endpoints.quoteStringArgument, None, i.ch)
+            truth = ctx().ghost["$interp"].truth
+            special = False
+            for c in SPECIAL:
+                if truth(veq(i.ch, c)):
+                    special = True
+            # (the length of the quoted form follows from the table proved by QuoteChar; an edit that changes it makes the
+            # slices below disagree with the text and the clause fail)
+            ctx().ghost["n"] = len(i.prefix) + (2 if special else 1)
+            return call(endpoints._tokenize, None, i.prefix + q)
+        return dict(drive=drive, ghost=g)
+
+    def bounded_inputs(self, tier):
+        return iter(())
+
+    raises = ()
+
+    def _tokens(S):
+        S_, O_ = endpoints._STRING, endpoints._OP
+        want = {"": [], "a:": [(S_, "a"), (O_, ":")], "a:k=": [(S_, "a"), (O_, ":"), (S_, "k"), (O_, "=")],
+                "a:k=v:": [(S_, "a"), (O_, ":"), (S_, "k"), (O_, "="), (S_, "v"), (O_, ":")]}[S.i.prefix]
+        got = list(S.result)
+        if len(got) != len(want) + 1:
+            return False
+        ok = True
+        for (k1, v1), (k2, v2) in zip(got[:-1], want):
+            ok = band(ok, k1 is k2 or k1 == k2, veq(v1, v2))
+        return band(ok, got[-1][0] == S_, veq(got[-1][1], S.i.ch))
+
+    ensures = dict(quoted_character_read_back_as_itself=_tokens)
+    canaries = [("            current += next(iterdesc)", "            current += n + next(iterdesc)", "quoted_character_read_back_as_itself")]
+
+
+CONTRACTS = [QuoteChar, TokenizeQuotedChar]
 BOUNDED = bounded("C46")
-NOTES = dict(explanation='endpoints._parse and serverFromString/clientFromString on a MemoryReactor with the quoted text in every positional / keyword slot: exhaustive texts up to 5 characters over {: = backslash a e-acute} plus seeded random longer texts', not_covered=["deductive contracts on the anchored functions (not built)"])
+_SCOPE = ('endpoints._parse and serverFromString/clientFromString on a MemoryReactor with the quoted text in every positional / keyword slot: exhaustive texts up to 5 characters over {: = backslash a e-acute} plus seeded random longer texts')
+NOTES = dict(explanation="quoteStringArgument proved character by character; tokenizer and parsers bounded: " + _SCOPE,
+             not_covered=["_parse and the endpoint parsers on top of the tokenizer, descriptions with more than one quoted character, the composition over whole "
+                          "strings: bounded tier only"])
 MANIFEST = dict(
-    category="exploration",
-    text="Bounded stand-in only, on the real code: " + 'endpoints._parse and serverFromString/clientFromString on a MemoryReactor with the quoted text in every positional / keyword slot: exhaustive texts up to 5 characters over {: = backslash a e-acute} plus seeded random longer texts' + ".",
-    note=EXPLORATION_NOTE,
-    technique="bounded exhaustive evaluation of an executable contract on the real code (stand-in; not proved)",
+    category="proof",
+    text="For every character, quoteStringArgument returns the character itself, or `backslash` + the character for the "
+         "backslash, ':' and '=' -- the three characters the tokenizer interprets; str.replace with a one-character pattern is "
+         "characterwise, and the backslash is handled first, so no escape is escaped again.  That _tokenize / _parse read the "
+         "quoted text back as exactly the original argument in every positional and keyword slot is exercised in the bounded "
+         "tier only: " + _SCOPE + ".",
+    note="Trusted: pyvc, SMT solvers, characterwise replace.  Everything else: bounded, never counted as proved.",
+    technique="contract-based deductive verification (complete symbolic case analysis per character, SMT sequences) + bounded exhaustive texts in every slot",
 )
